@@ -429,8 +429,9 @@ class FileRoundTrip(Scenario):
         obj_opt, obj_en = bool(cx.bool("object_optional")), bool(cx.bool("object_enabled"))
         data_opt, data_en = bool(cx.bool("data_optional")), bool(cx.bool("data_enabled"))
         dv_is_value = bool(cx.bool("data_value_is_value"))
-        flt = [1.5, float("inf"), float("-inf")][int(cx.int("float_choice", 0, 3))]
+        flt = [1.5, float("inf"), float("-inf")][self.params["float_choice"]]
         flt_opt, flt_en = bool(cx.bool("float_optional")), bool(cx.bool("float_enabled"))
+        validate, reassign = self.params["validate"], self.params["reassign"]      # sharded over the cores
         work = _os.path.join(_HERE, ".work", f"c14_{_os.getpid()}_{_uuid.uuid4().hex[:8]}")
         _os.makedirs(work, exist_ok=True)
         cx.on_exit(lambda: _shutil.rmtree(work, ignore_errors=True))
@@ -453,7 +454,11 @@ class FileRoundTrip(Scenario):
                 if opt:
                     ui[key]["optional"] = True
                     ui[key]["enabled"] = en
-            a = InputFile(ui_json=ui)
+            a = InputFile(ui_json=ui, validate=validate)
+            _ = a.data
+            if reassign:            # later assignments through the public setter must reach the file as well
+                a.set_data_value("flt", 7.25)
+                a.set_data_value("txt", "changed")
             da = dict(a.data)
             a_enabled = {k: v.get("enabled", True) for k, v in a.ui_json.items() if isinstance(v, dict)}
             demoted = InputFile.demote(dict(da))
@@ -475,8 +480,11 @@ class FileRoundTrip(Scenario):
                 cx.prove(same(da[k], db[k]), f"parameter {k!r} reads back the same value", "file round trip")
         # expected values from the switches
         cx.prove((da["object"] is None) == (obj_opt and not obj_en) and (da["data"] is None) == (data_opt and not data_en)
-                 and (da["flt"] is None) == (flt_opt and not flt_en), "a parameter is None exactly when it is disabled",
+                 and (reassign or (da["flt"] is None) == (flt_opt and not flt_en)), "a parameter is None exactly when it is disabled",
                  "file round trip")
+        if reassign:
+            cx.prove(db.get("flt") == 7.25 and db.get("txt") == "changed" and b_enabled.get("flt", True) is True,
+                     "values assigned with set_data_value are the ones read back", "file round trip")
         if not (obj_opt and not obj_en):
             cx.prove(getattr(da["object"], "uid", None) == pts.uid, "identifier promoted to the workspace entity", "promotion")
         if dv_is_value:
@@ -493,13 +501,14 @@ class FileRoundTrip(Scenario):
 
 def main(tier, seed):
     rc1 = run_property(
-        "C14", [FileRoundTrip()], tier, seed,
+        "C14", [FileRoundTrip(float_choice=f, validate=v, reassign=r) for f in range(3) for v in (True, False) for r in (False, True)],
+        tier, seed,
         assumptions=["file level: the real InputFile.write_ui_json / read_ui_json (real JSON text, real workspace on disk under "
                      "/verif/.work) driven by the symx explorer; only the optional/enabled/isValue switches and the choice of the "
                      "float value are symbolic, every feasible combination is one path"],
         outside=["group-optional members (open finding F-C14-3)", "drillhole-group data, range and file forms at file level"],
-        bounds="object / data / data-or-value / float / string forms x optional x enabled x isValue x {1.5, inf, -inf}",
-        expected_outcomes={"FileRoundTrip": {"ok"}}, jobs=1, validate_max=0,
+        bounds="object / data / data-or-value / float / string forms x optional x enabled x isValue x {1.5, inf, -inf} x validate x reassignment",
+        expected_outcomes={"FileRoundTrip": {"ok"}}, validate_max=0,
     )
     rc2 = run_xh(
         "C14", PRELUDE, CONDS, tier, seed,
